@@ -185,6 +185,11 @@ func zzWalk(n ast.Node, f func(ast.Node)) {
 		for _, a := range x.Elements {
 			zzWalk(a, f)
 		}
+	case *ast.HashLiteral:
+		for k, v := range x.Pairs {
+			zzWalk(k, f)
+			zzWalk(v, f)
+		}
 	case *ast.IndexExpression:
 		zzWalk(x.Left, f)
 		zzWalk(x.Index, f)
